@@ -34,6 +34,7 @@ def run(ctx):
     ctx.guard(rule_b, ctx, ix, inv)
     ctx.guard(rule_b_hook, ctx, ix, inv)
     ctx.guard(rule_c, ctx, ix)
+    ctx.guard(rule_d, ctx, ix)
 
 
 class Invalidation(object):
@@ -398,3 +399,90 @@ def _keyed_cache(ctx, R, ix, f, keyvar, compute_call, exceptions):
     ok = bool(stores) and all(isinstance(st.value.elts[0], ast.Name) and st.value.elts[0].id == keyvar for st in stores)
     ctx.ob(R, f.construct, 'the result is stored together with the key it was computed for', ok,
            detail='%s does not store the result under %s' % (f.construct, keyvar), where=f.where)
+
+
+# what an attribute of an array determines
+ATTR_DETERMINES = {'shape': {'shape', 'size', 'ndim'}, 'size': {'size'}, 'ndim': {'ndim'}, 'dtype': {'dtype'}}
+
+
+def rule_d(ctx, ix):
+    """Hand-rolled (key, value) caches stored on the dataset: the key determines everything the cached value is computed from."""
+    R = 'C05.d'
+    ctx.describe(R, 'per-dataset (key, value) caches: the key compared is the key stored, and it determines what the value was computed from',
+                 floor=1)
+    n = 0
+    for cq in ('glue.core.data.BaseData', 'glue.core.data.BaseCartesianData', 'glue.core.data.Data', 'glue.core.data_derived.IndexedData'):
+        c = ix.cls(cq)
+        for name, m in sorted(c.members.items()):
+            f = m.func
+            if f is None or f.cls is not c:
+                continue
+            s = f.self_name
+            pm = parent_map(f.node)
+            for st in walk_no_nested(f.node):
+                if not (isinstance(st, ast.Assign) and isinstance(st.value, ast.Tuple) and len(st.value.elts) == 2
+                        and isinstance(st.targets[0], ast.Attribute) and unparse(st.targets[0].value) == s
+                        and isinstance(st.value.elts[1], ast.Call)):
+                    continue
+                cache = st.targets[0].attr
+                key, call = st.value.elts
+                g = enclosing(pm, st, (ast.If,))
+                if g is None or ('%s.%s[0]' % (s, cache)) not in unparse(g.test):
+                    continue
+                n += 1
+                construct = '%s %s' % (f.construct, cache)
+                cmp_keys = [unparse(x.comparators[0]) for x in ast.walk(g.test) if isinstance(x, ast.Compare)
+                            and unparse(x.left) == '%s.%s[0]' % (s, cache) and isinstance(x.ops[0], ast.NotEq)]
+                ctx.ob(R, construct, 'the key compared before reuse is the key stored', cmp_keys == [unparse(key)],
+                       detail='%s stores the cached value under `%s` but decides to reuse it by comparing with %s'
+                              % (f.construct, unparse(key), cmp_keys), where=where(f, st))
+                # what the cached computation reads of its arguments
+                callee = None
+                try:
+                    q = ix.canonical(ix.resolve_expr(f.module, call.func) or '')
+                    callee = ix.functions.get(q)
+                except AnalysisError:
+                    callee = None
+                if callee is None:
+                    raise AnalysisError('%s: the function computing the cached value (%s) cannot be resolved' % (construct, unparse(call.func)))
+                keys = key.elts if isinstance(key, ast.Tuple) else [key]
+                for i, a in enumerate(call.args):
+                    if not isinstance(a, ast.Name) or i >= len(callee.params):
+                        continue
+                    p = callee.params[i]
+                    reads, whole = set(), False
+                    cpm = parent_map(callee.node)
+                    for x in ast.walk(callee.node):
+                        if isinstance(x, ast.Name) and x.id == p and isinstance(x.ctx, ast.Load):
+                            par = cpm.get(id(x))
+                            if isinstance(par, ast.Attribute) and par.value is x:
+                                reads.add(par.attr)
+                            else:
+                                whole = True
+                    if not reads and not whole:
+                        continue
+                    have = set()
+                    for k in keys:
+                        if isinstance(k, ast.Attribute) and unparse(k.value) == a.id:
+                            have |= ATTR_DETERMINES.get(k.attr, {k.attr})
+                        elif unparse(k) == a.id:
+                            have.add('<whole>')
+                    if a.id in f.params and not have and not whole:
+                        # a caller-supplied parameter that is not part of the key at all
+                        ctx.unmodelled(R, construct, 'argument %s of the cached computation is a request parameter outside the key '
+                                                     '(sampling size: outside what the property fixes)' % a.id)
+                        continue
+                    if whole and '<whole>' not in have:
+                        if a.id in f.params:
+                            ctx.unmodelled(R, construct, 'argument %s is a request parameter used as a whole' % a.id)
+                            continue
+                        raise AnalysisError('%s: %s uses its argument %s as a whole; the key cannot be compared' % (construct, callee.construct, p))
+                    ctx.ob(R, '%s arg %s' % (construct, a.id), 'the key determines everything the cached value reads of `%s`' % a.id,
+                           reads <= have or '<whole>' in have,
+                           detail='%s caches the result of %s under the key `%s`, but the result is computed from %s.%s: after a change '
+                                  'that keeps the key and alters %s (e.g. a refresh with another shape and the same number of elements) '
+                                  'the stale value is reused' % (f.construct, callee.construct, unparse(key), a.id,
+                                                                 '/'.join(sorted(reads - have)), '/'.join(sorted(reads - have))),
+                           where=where(f, st))
+    if n < 1:
+        raise AnalysisError('C05.d: no (key, value) cache recognised on the dataset classes')
